@@ -22,6 +22,7 @@ import (
 	"math/big"
 	"os"
 	"path/filepath"
+	"reflect"
 	"sort"
 	"strings"
 )
@@ -805,7 +806,37 @@ func callOrder(fd *ast.FuncDecl, only []string) []string {
 		keep[o] = true
 	}
 	var res []string
-	ast.Inspect(fd.Body, func(n ast.Node) bool {
+	// optional pseudo-names in `only` (used by C10's recovery facts):
+	//   "=field"  an assignment whose left-hand side is a selector ending in .field is recorded as "=field"
+	//   "{for"    every for/range statement is bracketed by "{for" … "}" (loop NESTING becomes part of the fact)
+	var visit func(n ast.Node) bool
+	visit = func(n ast.Node) bool {
+		if as, ok := n.(*ast.AssignStmt); ok {
+			for _, l := range as.Lhs {
+				if se, ok := l.(*ast.SelectorExpr); ok && keep["="+se.Sel.Name] {
+					res = append(res, "="+se.Sel.Name)
+				}
+			}
+		}
+		if keep["{for"] {
+			var parts []ast.Node
+			switch f := n.(type) {
+			case *ast.ForStmt:
+				parts = []ast.Node{f.Init, f.Cond, f.Post, f.Body}
+			case *ast.RangeStmt:
+				parts = []ast.Node{f.X, f.Body}
+			}
+			if parts != nil {
+				res = append(res, "{for")
+				for _, p := range parts {
+					if p != nil && !reflect.ValueOf(p).IsNil() {
+						ast.Inspect(p, visit)
+					}
+				}
+				res = append(res, "}")
+				return false
+			}
+		}
 		if ce, ok := n.(*ast.CallExpr); ok {
 			name := ""
 			switch f := ce.Fun.(type) {
@@ -817,6 +848,11 @@ func callOrder(fd *ast.FuncDecl, only []string) []string {
 					if keep[id.Name+"."+name] {
 						name = id.Name + "." + name
 					}
+				} else if sx, ok := f.X.(*ast.SelectorExpr); ok {
+					// x.field.Method(): qualified by the field name when asked for ("rqsLock.Lock")
+					if keep[sx.Sel.Name+"."+name] {
+						name = sx.Sel.Name + "." + name
+					}
 				}
 			}
 			if name != "" && (len(only) == 0 || keep[name]) {
@@ -824,7 +860,8 @@ func callOrder(fd *ast.FuncDecl, only []string) []string {
 			}
 		}
 		return true
-	})
+	}
+	ast.Inspect(fd.Body, visit)
 	return res
 }
 
